@@ -222,6 +222,45 @@ class CallerConn:
     patch = post
 
 
+class ReplacingIdAdapter(IdAdapter):
+    """an adapter that does not change the headers in place but puts a NEW dict (common headers merged with
+    the request's) into the request arguments - its own id among them"""
+
+    def process_req_args(self, req_args):
+        with self._lock:
+            self._counter[0] += 1
+            rid = "own-adapter-%d" % self._counter[0]
+            self.issued.append(rid)
+        req_args.headers = dict({'X-Common': 'c'}, **req_args.headers, **{'X-Request-ID': rid})
+
+
+class CIDict(dict):
+    """headers in a case-insensitive container (requests style): its copy() is case-insensitive too"""
+
+    def __init__(self, *args, **kwargs):
+        super().__init__()
+        for k, v in dict(*args, **kwargs).items():
+            self[k] = v
+
+    def __setitem__(self, k, v):
+        super().__setitem__(k.lower(), v)
+
+    def __getitem__(self, k):
+        return super().__getitem__(k.lower())
+
+    def __contains__(self, k):
+        return super().__contains__(k.lower())
+
+    def get(self, k, default=None):
+        return super().get(k.lower(), default)
+
+    def setdefault(self, k, default=None):
+        return super().setdefault(k.lower(), default)
+
+    def copy(self):
+        return CIDict(self)
+
+
 def mk_conns():
     base = conn_http.HttpConn("http://h")
     op = Opener()
@@ -233,7 +272,8 @@ def mk_conns():
     op.adapter_ids = []
     d4 = conn_http.HttpConn(base, adapters=[IdAdapter(op.adapter_ids)])
     d5 = CallerConn(Caller16(base).clone(conn_http.BAuthConn.Adapter("u", "p")))
-    return op, [base, d1, d2, d3, d4, d5]
+    d6 = conn_http.HttpConn(d1, adapters=[ReplacingIdAdapter(op.adapter_ids)])
+    return op, [base, d1, d2, d3, d4, d5, d6]
 
 
 def codes():
@@ -299,7 +339,7 @@ def first_requests_race(ctx, seed, rounds):
 
 
 def uses_id_adapter(thread_index):
-    return thread_index % 6 == 4      # the fifth connection of mk_conns()
+    return thread_index % 7 in (4, 6)      # the connections of mk_conns() whose adapters supply ids
 
 
 def stress_round(ctx, seed, interleavings, case_no):
@@ -356,7 +396,10 @@ def stress_round(ctx, seed, interleavings, case_no):
                 elif shape == 4:
                     kw['raw_response'] = True
                 if k % 10 == 3 and not uses_id_adapter(i):
-                    verb("/p", headers={'X-Request-ID': f"own-{i}-{k}" if k % 20 == 3 else ""}, **kw)
+                    own_id = f"own-{i}-{k}" if k % 20 == 3 else ""
+                    # (the caller's headers may be a case-insensitive container, the key spelled in lower case)
+                    verb("/p", headers=(CIDict({'x-request-id': own_id}) if k % 40 == 3 else {'X-Request-ID': own_id}),
+                         **kw)
                 elif k % 10 in (5, 6, 8):
                     verb("/p", headers=reused, **kw)
                 elif k % 10 == 9 and 'params' not in kw:
@@ -418,7 +461,7 @@ def long_run(ctx, n_requests):
     try:
         while numbered < n_requests:
             c = conns[k % len(conns)]
-            via_adapter = k % len(conns) == 4
+            via_adapter = k % len(conns) in (4, 6)
             if via_adapter and k % 50:
                 c = conns[0]          # the id-supplying connection only now and then
                 via_adapter = False
